@@ -167,6 +167,10 @@ func (s *c11Server) respond() {
 		emit([]byte{0, 0, 0, 0})
 	case s.sc.Resp == "garbage":
 		emit([]byte{0, 0, 0, 3, 0xff, 0xff, 0xff})
+	case s.sc.Resp == "garbage-high":
+		emit([]byte{0xef, 0xbb, 0xbf, 'b', 'o', 'o', 'm'})
+	case s.sc.Resp == "oversize-max":
+		emit([]byte{0xff, 0xff, 0xff, 0xff})
 	case s.sc.Resp == "eof":
 		s.exitLocked()
 	default:
@@ -416,7 +420,9 @@ type c11Obs struct {
 	Report   []string
 	ReportOK bool
 	Stderr   string
-	Names    []string
+	// outcomes as they are after report() merged the peers' feedback into them
+	AfterReport map[string]testOutcome
+	Names       []string
 }
 
 func c11Cases(sc c11Scenario) []*conformancev1.TestCase {
@@ -500,7 +506,7 @@ func c11RunOne(t *testing.T, sc c11Scenario, prefix []int, expect []gate.PointRe
 				}
 				sort.Strings(sbn)
 				retMu.Lock()
-				fmt.Fprintf(&sb, "|res=%v sb=%v mu=%v ret=%v errl=%d", names, sbn, results.mu.Held(), returned, len(errPrinter.lines))
+				fmt.Fprintf(&sb, "|res=%v sb=%v mu=%v ret=%v errl=%d", names, sbn, mutexHeld(&results.mu), returned, len(errPrinter.lines))
 				retMu.Unlock()
 				return sb.String()
 			}
@@ -522,7 +528,7 @@ func c11RunOne(t *testing.T, sc c11Scenario, prefix []int, expect []gate.PointRe
 		obs.Returned = returned
 		retMu.Unlock()
 		obs.Outcomes = map[string]testOutcome{}
-		if !results.mu.Held() {
+		if !mutexHeld(&results.mu) {
 			for k, v := range results.outcomes {
 				obs.Outcomes[k] = v
 			}
@@ -550,6 +556,10 @@ func c11RunOne(t *testing.T, sc c11Scenario, prefix []int, expect []gate.PointRe
 			rp := &c11Printer{}
 			obs.ReportOK = results.report(rp)
 			obs.Report = rp.lines
+			obs.AfterReport = map[string]testOutcome{}
+			for k, v := range results.outcomes {
+				obs.AfterReport[k] = v
+			}
 		}
 		srv.exit()
 		cancel()
@@ -646,6 +656,15 @@ func c11Judge(sc c11Scenario, obs *c11Obs, x *gate.Exec) []gateVerdict {
 			}
 		}
 	}
+	// producing the report (which merges peer feedback into the outcomes) must not turn a
+	// setup error into an ordinary verdict
+	for _, n := range obs.Names {
+		before, ok1 := obs.Outcomes[n]
+		after, ok2 := obs.AfterReport[n]
+		if ok1 && ok2 && before.setupError && before.actualFailure != nil && (!after.setupError || after.actualFailure == nil) {
+			add("setup-error-lost-in-report", "case %q was recorded as a setup error (%v) but after the report it is setup=%v failure=%v", n, before.actualFailure, after.setupError, after.actualFailure)
+		}
+	}
 	if obs.Started && obs.Aborted == 0 {
 		add("server-not-stopped", "the server process was started but never asked to stop")
 	}
@@ -683,6 +702,11 @@ func c11Judge(sc c11Scenario, obs *c11Obs, x *gate.Exec) []gateVerdict {
 			found := false
 			for _, m := range msgs {
 				if strings.Contains(rep, m) {
+					found = true
+				}
+				// a case that could not be run is not listed in the printed report; its
+				// feedback is attributed if it is part of that case's recorded failure
+				if o, ok := obs.AfterReport[n]; ok && o.actualFailure != nil && strings.Contains(o.actualFailure.Error(), m) {
 					found = true
 				}
 			}
@@ -738,9 +762,9 @@ func c11AnswerTuples(n int, kinds []string) [][]string {
 
 func c11Scenarios(thorough bool) []c11Scenario {
 	var out []c11Scenario
-	maxN := 2
+	maxN := 3
 	if thorough {
-		maxN = 3
+		maxN = 4
 	}
 	base := func(n int) c11Scenario {
 		return c11Scenario{N: n, StdinErr: "none", Resp: "ok", ExitAfter: -1, SendErrAt: -1}
@@ -758,7 +782,7 @@ func c11Scenarios(thorough bool) []c11Scenario {
 				s.TLS, s.StdinErr = tls, se
 				out = append(out, s)
 			}
-			resps := []string{"nocert", "oversize", "zero", "garbage", "never", "eof"}
+			resps := []string{"nocert", "oversize", "zero", "garbage", "never", "eof", "garbage-high", "oversize-max"}
 			full := len(frame(&conformancev1.ServerCompatResponse{Host: "127.0.0.1", Port: 4242}))
 			for k := 1; k < full; k++ {
 				if thorough || k <= 5 || k == full-1 {
@@ -810,6 +834,8 @@ func c11Scenarios(thorough bool) []c11Scenario {
 			{"no colon here\ns/c0: tail without newline"},
 			{"s/c0:nospace\n", "s/c9: unknown case\n"},
 			{"panic: something: with: colons\n"},
+			{"s/c0: invalid value for \"x\" header: \"y\": bad\n"},
+			{"s/c0: first: a\ns/c0: second\n"},
 		}
 		for _, st := range scripts {
 			for _, ans := range [][]string{nil, {"mismatch"}} {
@@ -817,6 +843,22 @@ func c11Scenarios(thorough bool) []c11Scenario {
 				s.RefServer, s.Stderr, s.Answers = true, st, ans
 				out = append(out, s)
 			}
+		}
+		// reference server feedback about a case that ends up as a setup error
+		for k := 0; k <= n; k++ {
+			s := base(n)
+			s.RefServer, s.ExitAfter = true, k
+			s.Stderr = []string{fmt.Sprintf("s/c%d: feedback for a case that may not run\n", n-1)}
+			out = append(out, s)
+		}
+		for k := 0; k < n; k++ {
+			s := base(n)
+			s.RefServer, s.SendErrAt = true, k
+			s.Stderr = []string{fmt.Sprintf("s/c%d: feedback for a case that may not run\n", n-1)}
+			out = append(out, s)
+			s.Answers = []string{"noresult", "noresult", "noresult", "noresult"}[:n]
+			s.SendErrAt = -1
+			out = append(out, s)
 		}
 		// reference client feedback
 		for _, a := range []string{"pass+fb", "mismatch+fb"} {
@@ -833,9 +875,9 @@ func TestVerifC11(t *testing.T) {
 	r := rep.New("c11-gate")
 	defer r.Write()
 	r.Rule = "scenario = batch size x server fault (start, stdin, response kind incl. every cut offset, exit after k requests) x client fault (send error at k) x answer kinds per position x sync/async callbacks x stderr script; every scenario explored by DFS over all gate choices up to the preemption bound; non-trivial = distinct (scenario, choice list)"
-	bound := 1
+	bound := 2
 	if rep.Thorough() {
-		bound = 2
+		bound = 3
 	}
 	scs := c11Scenarios(rep.Thorough())
 	gateExplore(t, r, scs, bound, func(sc c11Scenario, prefix []int, expect []gate.PointRec) gateRun {
